@@ -8,16 +8,18 @@
 (* agree.  Printed for replay through the real compiler.                   *)
 (***************************************************************************)
 EXTENDS Props
-CONSTANTS MaxBg, MaxSc
+CONSTANTS MaxBg, MaxSc, MaxRuleBg
 KT == {"Context", "Action", "Outcome", "Conjunction", "Unknown"}
-VARIABLES vBg, vSc, vSeen
-tvars == <<vBg, vSc, vSeen, vLines, vLine, vPs>>
+VARIABLES vBg, vRb, vSc, vSeen
+tvars == <<vBg, vRb, vSc, vSeen, vLines, vLine, vPs>>
 Init == /\ vBg \in UNION { [1..m -> KT] : m \in 0..MaxBg } /\ vSc \in UNION { [1..m -> KT] : m \in 0..MaxSc } /\ vSeen = FALSE
+        /\ vRb \in UNION { [1..m -> KT] : m \in 0..MaxRuleBg }      \* steps of the background of the RULE the scenario stands in (none: the scenario is at feature level)
         /\ vLines = <<>> /\ vLine = 0 /\ vPs = 0
-Next == ~vSeen /\ vSeen' = TRUE /\ UNCHANGED <<vBg, vSc, vLines, vLine, vPs>>
+Next == ~vSeen /\ vSeen' = TRUE /\ UNCHANGED <<vBg, vRb, vSc, vLines, vLine, vPs>>
 Spec == Init /\ [][Next]_tvars
 StepOf(kwt, id) == [t |-> "Step", id |-> id, line |-> id + 1, col |-> 1, kw |-> <<42, 32>>, kwt |-> kwt, text |-> <<120>>, arg |-> <<>>]
 BgSteps0 == [j \in 1..Len(vBg) |-> StepOf(vBg[j], j - 1)]
+RbSteps0 == [j \in 1..Len(vRb) |-> StepOf(vRb[j], 200 + j)]
 ScSteps0 == [j \in 1..Len(vSc) |-> StepOf(vSc[j], Len(vBg) + j)]
 RowOf(id, val) == [id |-> id, line |-> 90, col |-> 1, cells |-> << [col |-> 2, value |-> val] >>]
 DocOf(outline) ==
@@ -27,10 +29,13 @@ DocOf(outline) ==
               header |-> <<RowOf(n + 1, <<104>>)>>, body |-> <<RowOf(n + 2, <<49>>), RowOf(n + 5, <<50>>)>>]
        sc == [t |-> "Scenario", id |-> n + 4, line |-> 50, col |-> 1, tags |-> <<>>, kw |-> <<83>>, name |-> <<115>>, desc |-> <<>>, steps |-> ScSteps0,
               examples |-> IF outline THEN <<ex>> ELSE <<>>]
-   IN [feature |-> << [t |-> "Feature", line |-> 1, col |-> 1, tags |-> <<>>, lang |-> <<101, 110>>, kw |-> <<70>>, name |-> <<102>>, desc |-> <<>>, kids |-> <<bg, sc>>] >>,
+       rbg == [t |-> "Background", id |-> 300, line |-> 40, col |-> 1, kw |-> <<66>>, name |-> <<>>, desc |-> <<>>, steps |-> RbSteps0]
+       rule == [t |-> "Rule", id |-> 301, line |-> 39, col |-> 1, tags |-> <<>>, kw |-> <<82>>, name |-> <<>>, desc |-> <<>>, kids |-> <<rbg, sc>>]
+   IN [feature |-> << [t |-> "Feature", line |-> 1, col |-> 1, tags |-> <<>>, lang |-> <<101, 110>>, kw |-> <<70>>, name |-> <<102>>, desc |-> <<>>,
+                       kids |-> IF vRb = <<>> THEN <<bg, sc>> ELSE <<bg, rule>>] >>,
        comments |-> <<>>]
 TypesOf(doc) == LET pk == Compile(doc, <<117>>, 100) IN [j \in 1..Len(pk[1].steps) |-> pk[1].steps[j].type]
-All == vBg \o vSc
+All == vBg \o vRb \o vSc
 Inv_Definite == vSeen => \A j \in 1..Len(TypesOf(DocOf(FALSE))) : TypesOf(DocOf(FALSE))[j] \in StepTypes
 Inv_FromKeyword == vSeen => LET ts == TypesOf(DocOf(FALSE)) IN
    /\ Len(ts) = (IF vSc = <<>> THEN 0 ELSE Len(All))
@@ -40,5 +45,5 @@ Inv_FromKeyword == vSeen => LET ts == TypesOf(DocOf(FALSE)) IN
 Inv_PlainEqualsOutline == vSeen => /\ TypesOf(DocOf(FALSE)) = TypesOf(DocOf(TRUE))
                                    /\ LET pk == Compile(DocOf(TRUE), <<117>>, 100) IN [j \in 1..Len(pk[2].steps) |-> pk[2].steps[j].type] = TypesOf(DocOf(TRUE))   \* every row alike
 Inv_P_C10 == vSeen => P_C10(Compile(DocOf(TRUE), <<117>>, 100), EPs(DocOf(TRUE), <<117>>)) /\ P_C10(Compile(DocOf(FALSE), <<117>>, 100), EPs(DocOf(FALSE), <<117>>))
-Emit == vSeen => PrintT(<<"TYPES", ToJson([bg |-> vBg, sc |-> vSc, plain |-> TypesOf(DocOf(FALSE)), outline |-> TypesOf(DocOf(TRUE))])>>)
+Emit == vSeen => PrintT(<<"TYPES", ToJson([bg |-> vBg, rb |-> vRb, sc |-> vSc, plain |-> TypesOf(DocOf(FALSE)), outline |-> TypesOf(DocOf(TRUE))])>>)
 =============================================================================
